@@ -179,8 +179,9 @@ func (c *Ctx) VerifiedBeforeSuccess(prop string) {
 		}
 		for _, ck := range checks {
 			ck := ck
+			// (the tests may sit in a validation method of the reply: `if err := reply.check(); err != nil { return }`)
 			x, path := an.Cut(an.CutQuery{From: an.Point{Block: body, Idx: 0}, Target: func(i ssa.Instruction) bool { return i == recvHdr.Instrs[0] },
-				AcceptEdge: func(b *ssa.BasicBlock, i int, a *an.Atom) bool { return ck.acc(a) }})
+				AcceptEdge: c.WithSummaries(func(a *an.Atom, _ Subst) bool { return ck.acc(a) })})
 			if x != nil {
 				c.R.Fail(rule, Fn(D)+":"+ck.name, c.Pos(recvHdr.Instrs[0]), "the driver goes on to the next commit reply without ["+ck.name+"]", "every reply: error-free, key and signature present", an.PathString(c.Pos, path))
 			} else {
@@ -340,6 +341,32 @@ func (c *Ctx) VerifiedBeforeSuccess(prop string) {
 		}
 		cond, ok := iff.Cond.(*ssa.BinOp)
 		if !ok || (cond.Op != token.LEQ && cond.Op != token.LSS) {
+			continue
+		}
+		// third form: `for start := 0; start <= n - w; start++` (the same n+1-w windows as start+w <= n)
+		if phi, isPhi := cond.X.(*ssa.Phi); isPhi && cond.Op == token.LEQ && phi.Block() == blk && len(phi.Edges) == 2 {
+			if sub, isSub := cond.Y.(*ssa.BinOp); isSub && sub.Op == token.SUB {
+				okStep := false
+				for k := 0; k < 2; k++ {
+					if inc, ok := phi.Edges[k].(*ssa.BinOp); ok && inc.Op == token.ADD && inc.X == ssa.Value(phi) && an.IsConstInt(inc.Y, 1) && an.IsConstInt(phi.Edges[1-k], 0) {
+						okStep = true
+					}
+				}
+				if okStep {
+					l := &Loop{Header: blk, Cond: cond, Idx: phi, Phi: phi, BodyFirst: blk.Succs[0], Exit: blk.Succs[1], Body: map[*ssa.BasicBlock]bool{}}
+					st := []*ssa.BasicBlock{l.BodyFirst}
+					for len(st) > 0 {
+						x := st[len(st)-1]
+						st = st[:len(st)-1]
+						if x == blk || l.Body[x] {
+							continue
+						}
+						l.Body[x] = true
+						st = append(st, x.Succs...)
+					}
+					consider(&winLoop{cl: cloopOfLoop(l), leqW: sub.Y, leqLen: sub.X, strict: false})
+				}
+			}
 			continue
 		}
 		add, ok := cond.X.(*ssa.BinOp)
